@@ -38,7 +38,8 @@ KINDS = ['rand_bytes', 'trunc_pickle', 'flip_pickle', 'pickle_nondict',
          'callback_unknown_id', 'callback_malformed', 'handler_raises_cb',
          'chained_cb',
          'handler_raises_disconnect', 'listen_raises', 'bad_pickle_class',
-         'remote_ops_unknown', 'valid_emit', 'dict_raw', 'str_raw']
+         'remote_ops_unknown', 'valid_emit', 'dict_raw', 'str_raw',
+         'json_bytes_emit']
 
 
 REDIS_JUNK = ['rand_bytes', 'trunc_pickle', 'flip_pickle', 'pickle_nondict',
@@ -532,6 +533,12 @@ def _run(case, cfg, w):
         elif kind == 'valid_emit':
             bus.inject(pickle.dumps(valid_emit('V%d' % i, sent_sid)))
             sentinels.append('V%d' % i)
+        elif kind == 'json_bytes_emit':
+            # a valid message from a publisher that writes JSON, handed over
+            # by the back end as bytes (as Redis and most brokers do)
+            bus.inject(json.dumps(valid_emit('J%d' % i, sent_sid))
+                       .encode('utf-8'))
+            sentinels.append('J%d' % i)
         else:
             raw = make_item(kind, r, ctx)
             if raw is None:
